@@ -40,11 +40,41 @@ pub struct Ctl {
 
 thread_local! {
     static CUR: RefCell<Option<(Arc<Ctl>, usize)>> = const { RefCell::new(None) };
+    /// stress mode: per-thread PRNG state; non-zero = jitter at every yield point
+    static JITTER: std::cell::Cell<u64> = const { std::cell::Cell::new(0) };
+}
+
+pub fn set_jitter(seed: u64) {
+    JITTER.with(|j| j.set(seed | 1));
+}
+
+fn jitter() {
+    JITTER.with(|j| {
+        let mut x = j.get();
+        if x == 0 {
+            return;
+        }
+        x ^= x << 13;
+        x ^= x >> 7;
+        x ^= x << 17;
+        j.set(x);
+        match x % 4 {
+            0 => {
+                for _ in 0..(x >> 8) % 3000 {
+                    std::hint::spin_loop();
+                }
+            }
+            1 => std::thread::yield_now(),
+            2 => std::thread::sleep(Duration::from_micros((x >> 8) % 60)),
+            _ => {}
+        }
+    });
 }
 
 /// install the process-wide yield callback (once)
 pub fn install() {
     reactive_graph::set_verif_yield_callback(Some(Arc::new(|name: &'static str| {
+        jitter();
         let cur = CUR.with(|c| c.borrow().clone());
         if let Some((ctl, i)) = cur {
             if ctl.active.contains(&name) {
